@@ -242,31 +242,35 @@ pub fn eval_node<F: FnMut(&GraphColoredVertices, &str)>(
 
                     // check edge case of an empty domain (in that case we cannot restrict the domain,
                     // there would be an error)
+                    // (the shortcut must be a value of this branch, not an early return, so that
+                    // the variable's domain is removed from the eval context below)
                     if domain_set.is_empty() {
-                        return match op.clone() {
+                        match op {
                             HybridOp::Bind => graph.mk_empty_colored_vertices(),
                             HybridOp::Exists => graph.mk_empty_colored_vertices(),
                             // forall
                             _ => graph.mk_unit_colored_vertices(),
-                        };
+                        }
+                    } else {
+                        // restrict the var domain in unit BDD of the graph
+                        let var_domain = compute_valid_domain_for_var(graph, domain_set, &var);
+                        let restricted_graph = restrict_stg_unit_bdd(graph, &var_domain);
+
+                        let child_eval = eval_node(
+                            *child,
+                            &restricted_graph,
+                            eval_context,
+                            steady_states,
+                            progress_callback,
+                        );
+                        progress_callback(
+                            &empty_set,
+                            &format!(
+                                "Evaluating operator `{op}` with restricted domain `{domain}`."
+                            ),
+                        );
+                        eval_hybrid_quantifier(graph, &restricted_graph, &op, &var, &child_eval)
                     }
-
-                    // restrict the var domain in unit BDD of the graph
-                    let var_domain = compute_valid_domain_for_var(graph, domain_set, &var);
-                    let restricted_graph = restrict_stg_unit_bdd(graph, &var_domain);
-
-                    let child_eval = eval_node(
-                        *child,
-                        &restricted_graph,
-                        eval_context,
-                        steady_states,
-                        progress_callback,
-                    );
-                    progress_callback(
-                        &empty_set,
-                        &format!("Evaluating operator `{op}` with restricted domain `{domain}`."),
-                    );
-                    eval_hybrid_quantifier(graph, &restricted_graph, &op, &var, &child_eval)
                 }
             };
 
